@@ -47,3 +47,49 @@ pub fn parse_event(case: &Value) -> Value {
     }
     ev
 }
+
+/// Text -> Model -> LinearModel, recorded like a corpus-K event (source = the
+/// compiled Model of this text).  Used for respelled twins (C10) and by the
+/// rendering round trips (C12).
+pub fn lin_of_text(id: &str, src: &str) -> Value {
+    let res = catch_unwind(AssertUnwindSafe(|| {
+        RoocParser::new(src.to_string()).parse_and_transform(vec![], &IndexMap::new())
+    }));
+    match res {
+        Err(p) => json!({"id":id,"out":"panic","why":panic_msg(p),"stage":"front"}),
+        Ok(Err(e)) => json!({"id":id,"out":"err","err":{"kind":"FrontEnd"},"errtext":e.to_string(),"stage":"front"}),
+        Ok(Ok(model)) => {
+            let mut ev = crate::lin::lin_event(id, model);
+            ev["stage"] = json!("lin");
+            ev
+        }
+    }
+}
+
+/// C10 twins: {id, a: text, b: text}; three events: lin(a), lin(b) judged against a's
+/// source model, and the acceptance pair.
+pub fn twin_events(case: &Value, out: &mut Vec<Value>) {
+    let id = case["id"].as_str().unwrap_or("?");
+    let a = lin_of_text(&format!("{id}/a"), case["a"].as_str().unwrap());
+    let mut b = lin_of_text(&format!("{id}/b"), case["b"].as_str().unwrap());
+    // b's linear model is judged against a's source model (same meaning, other spelling)
+    if a["out"] == "ok" && b["out"] == "ok" {
+        for k in ["sense", "obj", "cons", "sdom", "srctext"] {
+            b[k] = a[k].clone();
+        }
+        // auxiliaries of b are the variables a's source does not declare
+        let declared: std::collections::HashSet<String> = a["sdom"].as_array().unwrap().iter().map(|d| d["name"].as_str().unwrap().to_string()).collect();
+        if let Some(vars) = b["lm"]["vars"].as_array_mut() {
+            for v in vars.iter_mut() {
+                let n = v["name"].as_str().unwrap().to_string();
+                v["aux"] = json!(!declared.contains(&n));
+            }
+        }
+    }
+    let kind = |e: &Value| e["err"]["kind"].as_str().unwrap_or("").to_string();
+    out.push(json!({"id":format!("{id}/twin"),"twin":true,"out":"twin","outa":a["out"],"outb":b["out"],
+                    "erra":kind(&a),"errb":kind(&b),"texta":case["a"],"textb":case["b"],
+                    "whya":a.get("errtext").cloned().unwrap_or(json!("")),"whyb":b.get("errtext").cloned().unwrap_or(json!(""))}));
+    out.push(a);
+    out.push(b);
+}
